@@ -23,6 +23,8 @@ type slot struct {
 }
 
 type Effects struct {
+	// AllowDynamic: calls of function values of these types are assumed not to mutate their arguments
+	AllowDynamic func(t types.Type) bool
 	W     *World
 	memo  map[slot]int // 0 unknown, 1 in progress, 2 false, 3 true
 	why   map[slot]string
@@ -195,7 +197,24 @@ func isPureExternal(f *ssa.Function) bool {
 }
 
 func (e *Effects) inModule(f *ssa.Function) bool {
-	return f != nil && f.Pkg != nil && strings.HasPrefix(f.Pkg.Pkg.Path(), modPath) && f.Blocks != nil
+	if f == nil || f.Blocks == nil {
+		return false
+	}
+	if f.Pkg != nil {
+		return strings.HasPrefix(f.Pkg.Pkg.Path(), modPath)
+	}
+	// synthetic wrappers (promoted methods, bound methods) have no package:
+	// decide by the receiver's type
+	if f.Synthetic != "" && f.Signature.Recv() != nil {
+		t := f.Signature.Recv().Type()
+		if p, ok := t.(*types.Pointer); ok {
+			t = p.Elem()
+		}
+		if n, ok := t.(*types.Named); ok && n.Obj().Pkg() != nil {
+			return strings.HasPrefix(n.Obj().Pkg().Path(), modPath)
+		}
+	}
+	return false
 }
 
 // Mutates reports whether fn may mutate / leak memory reachable from slot s.
@@ -330,6 +349,9 @@ func (e *Effects) callEffect(s slot, ci ssa.CallInstruction) (bool, string, toke
 		}
 		// call of a func value: if the func value itself is the slot-derived thing, calling it is fine;
 		// passing slot-derived pointers to an unknown function is not
+		if e.AllowDynamic != nil && e.AllowDynamic(cc.Value.Type()) {
+			return false, "", token.NoPos
+		}
 		for _, i := range hit {
 			_ = i
 			return true, "passed to a dynamically called function in " + funcKey(ci.Parent()), ci.Pos()
